@@ -91,6 +91,13 @@ def build_streams(ctx):
     for k in range(1, depth + 1):
         for combo in itertools.product(names, repeat=k):
             sts.append(("seq", [ALPHA[n]() for n in combo] + [F(8, b"")]))
+    # (4b) histories across a PAYLOAD rejection: a complete text message whose bytes are not UTF-8 is refused, and the
+    #      sequencing state after it is "no message in progress" (its last frame had FIN=1)
+    bad = {"X1": lambda: F(1, b"\xff", fin=1), "X0": lambda: F(1, b"\xc3", fin=0)}
+    for k in range(2, (4 if ctx.thorough() else 3) + 1):
+        for combo in itertools.product(names + list(bad), repeat=k):
+            if any(n in bad for n in combo):
+                sts.append(("seq-badtext", [(ALPHA.get(n) or bad[n])() for n in combo] + [F(8, b"")]))
     # (5) ping length boundary
     for n in (124, 125, 126, 127, 200):
         sts.append(("ping-len", [F(9, b"p" * n)]))
@@ -125,7 +132,9 @@ def run(ctx):
     for kind, frames in sts:
         stream = b"".join(f.enc() for f in frames)
         for api, fire in apis:
-            if fire and kind not in ("seq", "hdr-inmsg", "ping-len"):
+            if fire and kind not in ("seq", "hdr-inmsg", "ping-len", "close-reason", "close-code"):
+                continue                    # (per-fragment delivery must not switch any frame-level judgement off)
+            if kind == "seq-badtext" and api == "rf":
                 continue
             if kind in ("hdr", "hdr-inmsg", "close-code") and api in ("rdf:0", "recv") and kind != "hdr-inmsg":
                 if api == "recv":
@@ -158,9 +167,11 @@ def run(ctx):
         # walk calls: which frame does each call end at?
         excs = [o for o in outs_ if o.startswith("X:")]
         first_exc = next((o for o in outs_ if o.startswith("X:")), None)
+        badtext = kind == "seq-badtext"
         if first_bad is None:
-            # legal throughout: nothing but a clean end of stream may be raised (text payloads here are valid UTF-8)
-            bad = [o for o in outs_ if o.startswith("X:") and o != "X:CLOSED"]
+            # legal throughout: nothing but a clean end of stream may be raised (text payloads are valid UTF-8, except in the
+            # seq-badtext histories, where the message — not a frame — is refused with PAYLOAD)
+            bad = [o for o in outs_ if o.startswith("X:") and o != "X:CLOSED" and not (badtext and o == "X:PAYLOAD")]
             if bad:
                 ctx.violate("legal-stream-accepted", "raises-" + bad[0][2:], inp, "no exception before end of stream", impl[:300],
                             size=len(frames) * 10 + sum(len(f.data) for f in frames))
@@ -173,6 +184,9 @@ def run(ctx):
             cause = cause_of(f, inmsg)
             if api.startswith("rf") and cause in ("continuation-without-message", "data-frame-inside-message"):
                 continue       # sequencing is a message-level rule; recv_frame returns raw frames
+            if badtext and ":fire" not in api and "X:PROTO" not in outs_:
+                ctx.violate("illegal-frame-raises-protocol-error", cause + "-after-payload-rejection", inp,
+                            f"PROTO when frame #{first_bad} ({f.desc()}) is read", impl[:300], size=len(frames) * 10)
             if first_exc is None or first_exc not in ("X:PROTO", "X:PAYLOAD"):
                 ctx.violate("illegal-frame-raises-protocol-error", cause, inp, f"PROTO when frame #{first_bad} ({f.desc()}) is read",
                             impl[:300], size=len(frames) * 10 + sum(len(g.data) for g in frames))
